@@ -273,6 +273,59 @@ fn watch() -> &'static Mutex<Vec<Option<(String, Instant, bool)>>> {
     })
 }
 
+// ------------------------------------------------------------------ stack overflow of the implementation
+
+/// Give the calling thread a roomy alternate signal stack (the handler below formats a report).
+pub fn thread_altstack() {
+    const SZ: usize = 1 << 20;
+    unsafe {
+        let mem = libc::mmap(std::ptr::null_mut(), SZ, libc::PROT_READ | libc::PROT_WRITE, libc::MAP_PRIVATE | libc::MAP_ANONYMOUS, -1, 0);
+        if mem != libc::MAP_FAILED {
+            let ss = libc::stack_t { ss_sp: mem, ss_flags: 0, ss_size: SZ };
+            libc::sigaltstack(&ss, std::ptr::null_mut());
+        }
+    }
+}
+
+/// jaq has no unsafe code, so a SIGSEGV in a worker thread is the guard page of its (1 GiB) stack.
+/// When that happens while the implementation runs a registered case, the case is reported as a
+/// violation (the case terminates with a value in the model / on the unchanged tree; no finite case of
+/// these checks needs a gigabyte of stack); otherwise it is a machinery error.
+pub fn install_crash_handler() {
+    thread_altstack();
+    unsafe {
+        let mut sa: libc::sigaction = std::mem::zeroed();
+        sa.sa_sigaction = on_crash as usize;
+        sa.sa_flags = libc::SA_SIGINFO | libc::SA_ONSTACK;
+        libc::sigaction(libc::SIGSEGV, &sa, std::ptr::null_mut());
+        libc::sigaction(libc::SIGBUS, &sa, std::ptr::null_mut());
+    }
+}
+
+extern "C" fn on_crash(_sig: i32, _info: *mut libc::siginfo_t, _ctx: *mut libc::c_void) {
+    unsafe {
+        libc::alarm(20); // should anything below block (allocator lock held by the dying thread), die as a machinery error
+    }
+    let slot = SLOT.try_with(|s| s.get()).unwrap_or(usize::MAX);
+    let entry = WATCH.get().and_then(|w| w.lock().ok().and_then(|g| g.get(slot).cloned().flatten()));
+    let prop = std::env::args().nth(1).unwrap_or_default().to_uppercase();
+    match entry {
+        Some(e) => {
+            let vd = verif_dir().join("replays").join(&prop);
+            std::fs::create_dir_all(&vd).ok();
+            let p = vd.join(format!("overflow_{:016x}.json", h64(&e.0)));
+            std::fs::write(&p, serde_json::to_string_pretty(&json!({"property": prop, "key": e.0, "detail": {"what": "the implementation overflowed a 1 GiB native stack on this case"}})).unwrap()).ok();
+            eprintln!("stack overflow on case: {}", e.0);
+            println!("VIOLATION property={} replay={}", prop, p.display());
+            unsafe { libc::_exit(1) }
+        }
+        None => {
+            eprintln!("machinery error: SIGSEGV/stack overflow outside a registered case");
+            unsafe { libc::_exit(2) }
+        }
+    }
+}
+
 /// Run `f` under the watchdog. `verdict`: a time-out is a divergence violation (the model terminated),
 /// otherwise it is a machinery error.
 pub fn watched<R>(key: impl FnOnce() -> String, verdict: bool, f: impl FnOnce() -> R) -> R {
